@@ -138,7 +138,7 @@ def build_slice(path, entries, tier, log):
         wanted = static_inits(path) + [os.path.basename(path)]
         for e in re.findall(r"\{ i32 \d+, void \(\)\* @[^,]+, i8\* [^}]*\}", m.group(0)):
             fn = re.search(r"@([^, ]+)", e).group(1).strip('"')
-            if any(fn == "_GLOBAL__sub_I_" + w for w in wanted):
+            if any(fn == "_GLOBAL__sub_I_" + w for w in wanted) or ("ALL" in wanted and fn.startswith("_GLOBAL__sub_I_")):
                 keep.append(e)
         if keep:
             line = "@llvm.global_ctors = appending global [%d x { i32, void ()*, i8* }] [%s]" % (len(keep), ", ".join("{ i32, void ()*, i8* } " + k for k in keep))
